@@ -94,7 +94,8 @@ PROPS = {
                  'factor, on which the proof rests, is not shown and the two clauses are searched only; the proof is over the reals: '
                  'that binary64 rounding cannot make two iterates alternate between two 1e-4 bins for ever is not covered (searched with a '
                  'wall-clock guard)',
-                 'C20_ws_nonincreasing is proved on the liquid side of the envelope (turbulent branch); outside it (Re <= 2320) it is searched only'],
+                 'C20_ws_nonincreasing is proved for every liquid state of the envelope (there Re > 7000: turbulent branch of the friction factor); the '
+                 'laminar branch (Re <= 2320) lies outside E and is not covered'],
         level_text='Proof (all reals, regenerated model): 0 <= Vsm <= Vsm_max with and without the friction-factor alternative; Vsm at Cvr_max equals '
                    'Vsm_max within 0.2 % on both branches of Eqn 6.20-36 (the defect repaired by the fix: commit made the second branch false); '
                    '0.05 <= Cvr_max <= 0.66; 0.25 <= M <= 1.7; the V50 loop terminates on the envelope (monotone friction-factor map on [0.01, 0.036]: '
